@@ -70,6 +70,14 @@ def toHTTPStatus (cfg : Cfg) (e : BErr) : Nat :=
     | .plain => 500
     | .code c => lookupCode c
 
+/-- the `ErrorMapper`s the correspondence harness configures (`c08Mapper` in the harness): 0 = none,
+1 declines everything, 2 converts errors without gRPC status to 503, 3 sends NotFound to 410 and Unavailable to 429 -/
+def mapperOf : Nat → BErr → Option Nat
+  | 2, .plain => some 503
+  | 3, .code 5 => some 410
+  | 3, .code 14 => some 429
+  | _, _ => none
+
 def hashesOk (ls : List Nat) : Bool := ls.all (· == 32)
 
 def indicesOk : Int → List Int → Bool
